@@ -143,13 +143,17 @@ func (s *streamWriter) init() {
 			}
 		default:
 			slog.Debug("remote using TLS for writing")
-			rawconn, err = tls.Dial("tcp", s.writeToAddr, s.tlsConfig)
+			// a failed tls.Dial returns a nil *tls.Conn: assigned to rawconn it would be a
+			// non-nil net.Conn, and the check for an unreachable peer below would not see it.
+			var tlsconn *tls.Conn
+			tlsconn, err = tls.Dial("tcp", s.writeToAddr, s.tlsConfig)
 			if err != nil {
 				d := time.Duration(delay * time.Duration(i*2))
 				slog.Error("tls.Dial", "err", err, "remote", s.writeToAddr, "retry", i, "max", maxRetries, "delay", d)
 				time.Sleep(d)
 				continue
 			}
+			rawconn = tlsconn
 		}
 		break
 	}
